@@ -189,6 +189,38 @@ func famZ2(modes []modeSpec, k int) []xferCase {
 	return out
 }
 
+// famZR: one chunk is lost again and again (original, the retransmission that a loss declared
+// from later acknowledgements triggers, the tail-loss probe, ...) while everything behind it
+// gets through and nothing more is written: only the retransmission timer is left to repair it.
+func famZR(modes []modeSpec, repeats []int) []xferCase {
+	var out []xferCase
+	for _, mode := range modes {
+		// gap 0: the four go out back to back (the loss is declared by the reordering timer);
+		// gap 50 ms: by the time a later one is acknowledged the lost one is old enough to be
+		// declared lost by that very acknowledgement
+		for _, gap := range []time.Duration{0, 50 * time.Millisecond} {
+			for idx := 0; idx < 4; idx++ {
+				for _, n := range repeats {
+					a := withBase(mode.A, 228, 0xFFFFFFFD, 4000)
+					b := withBase(mode.B, 228, 9, 4000)
+					var msgs []msgSpec
+					for i := 0; i < 4; i++ {
+						msgs = append(msgs, msgSpec{Size: 150, PPI: 53})
+					}
+					out = append(out, xferCase{
+						Name: fmt.Sprintf("ZR/%s/gap%v/idx%d/lost%d", mode.Name, gap, idx, n),
+						K:    0,
+						Spec: &xferSpec{A: a, B: b, KillIdx: []int{idx}, KillN: n, Horizon: 400 * time.Second, DrainWait: 300 * time.Second,
+							Interleave: gap > 0, WriteGap: gap,
+							Streams: []streamSpec{{SID: 1, From: 0, Msgs: msgs}}},
+					})
+				}
+			}
+		}
+	}
+	return out
+}
+
 // famZ4: windows larger than the workload straddling the 2^32 wrap: the first chunk is lost
 // and many small messages follow (reordering span of several bitmap words).
 func famZ4(rbufs []uint32, counts []int) []xferCase {
@@ -426,6 +458,18 @@ func famZS(counts []int) []xferCase {
 			Spec: &xferSpec{A: a, B: b, KillIdx: kill, KillN: 1, Horizon: 900 * time.Second, DrainWait: 300 * time.Second,
 				Streams: []streamSpec{{SID: 1, From: 0, Msgs: msgs}}},
 		})
+		if n > 4000 {
+			// the sender's own receive buffer is small: the size of the SACKs it has to read
+			// is decided by the peer's window, not by its own
+			a2 := a
+			a2.RecvBuf = 128 << 10
+			out = append(out, xferCase{
+				Name: fmt.Sprintf("ZS/n%d/rbufA128k", n),
+				K:    0,
+				Spec: &xferSpec{A: a2, B: b, KillIdx: kill, KillN: 1, Horizon: 900 * time.Second, DrainWait: 300 * time.Second,
+					Streams: []streamSpec{{SID: 1, From: 0, Msgs: msgs}}},
+			})
+		}
 	}
 	return out
 }
